@@ -135,6 +135,48 @@ def c06(tier, seed):
     return c.finish()
 
 
+def c07(tier, seed):
+    c = Check("C07", tier, seed)
+    c.rule = ("MC (VirtQueueMC, Adversary=TRUE): the transcribed add/pop/recycle code against a device that writes ANY used element (ids of other chains, free descriptors, out of range) and ANY used index, queue size 2, direct / event-idx (indirect in the thorough tier): descriptor exclusivity, free-list exactness, ledger and never-blocked invariants; negative configuration (no token check) must fail. "
+              "Traces: (1) the public VirtQueue API against the misbehaving reference device (bogus / duplicate / dropped completions, arbitrary lengths, index jumps), each scenario recorded twice - the device only pretending to scribble over descriptor table and available ring, and really doing it - the second recording must equal the first event for event and is validated against VirtQueue.tla (scribbling is a stuttering step); "
+              "(2) every driver (block, console, network raw+buffered, socket, input, sound, entropy, clock, 9P, GPU) on all transports under the same adversary plus garbled response bytes and arbitrary configuration-space values / queue-size limits: each queue's trace validated against VirtQueue.tla with cfg.adv (the driver half of every add/pop/recycle/unshare must still be exact), the driver-level stream against Adv.tla (call ends in result, clean panic or endless wait; DMA regions released once and as allocated; no heap memory freed while shared with the device while the driver is in use; frame-buffer slice within its DMA region)")
+    c.assumptions = ["a panic is 'clean' iff its source location is inside /repo (the crate's own checks, bounds checks and overflow checks of the profile built)",
+                     "raw memory safety of accesses that change no observed value is outside what a specification can decide (DESIGN.md 5); LedgerHal bounces every buffer, so device writes cannot leave the shared range",
+                     "configuration values that make a driver allocate more memory than the machine has (sound: streams) are excluded: allocator abort is resource exhaustion"]
+    mc(c, ["VQ_n2_adversary", "VQ_n2_adversary_ev"] + (["VQ_n2_adversary_ind"] if tier == "thorough" else []), tier, negative=["VQ_bug_no_token_check"])
+    vq_family(c, tier, seed, ["adversary"])
+    profiles = ["dev", "release"] if tier == "thorough" else ["dev"]
+    for prof in profiles:
+        out = os.path.join(WORK, c.pid, f"adv-{prof}.ndjson")
+        try:
+            idx = run_harness("adv", out, seed, tier, profile=prof)
+        except ToolError as e:
+            if "exited with 3" in str(e) or "exited with 2" in str(e):
+                raise
+            # the process died (abort / signal): not a result, not an error, not a clean panic
+            c.violation({"kind": "crash", "family": "adv", "profile": prof, "what": str(e), "replay_cmd": f"VH_SERIAL=1 harness/target/*/vh adv --seed {seed} --tier {tier}"})
+            continue
+        v = validate_traces("AdvTrace", "AdvTrace.cfg", out, idx, max_events=1)
+        c.add_validation(v, f"adv/{prof}")
+        c.states += v["states"]
+        qv = validate_traces("VirtQueueTrace", "VirtQueueTrace.cfg", out + ".q.ndjson", {"scenarios": []}, max_events=3000)
+        qv["scenarios"] = 0
+        c.add_validation(qv, f"adv/{prof}/queues")
+        agg = {}
+        for s in idx["summaries"]:
+            for k, n in (s.get("adversary") or {}).items():
+                agg[k] = agg.get(k, 0) + n
+            agg["clean_panics"] = agg.get("clean_panics", 0) + s.get("clean_panics", 0)
+            agg["endless_waits"] = agg.get("endless_waits", 0) + s.get("stuck", 0)
+        c.extra.setdefault("adversary_actions", {})[prof] = agg
+        c.samples.append({"family": "adv", "scenario": idx["scenarios"][0], "summary": idx["summaries"][0]})
+        if not c.violations:
+            for f in (out, out + ".q.ndjson"):
+                if os.path.exists(f):
+                    os.remove(f)
+    return c.finish()
+
+
 def c08(tier, seed):
     c = Check("C08", tier, seed)
     c.rule = "MC: generic driver over all subsets of a 6-bit feature projection (negotiation is bit-wise, checked as an ASSUME), negative configurations (DRIVER_OK before queues, accepting unsupported bits) must be refused; traces: all 11 drivers x {no features, all ones, each single bit 0..63, random sets} x legacy/modern on the model transport: ordered transport calls validated against Lifecycle.tla, every queue's trace validated against VirtQueue.tla with the negotiated indirect/event-idx/access-platform bits; usage: the block, console, network (raw+buffered), socket, input, sound-event, entropy, clock, 9P, GPU and sound drivers exercised on all transports under feature sets offering none / one / both of INDIRECT_DESC and EVENT_IDX, queue traces validated with the negotiated bits"
@@ -355,7 +397,7 @@ def c20(tier, seed):
     return c.finish()
 
 
-PROPS = {"C20": c20, "C19": c19, "C17": c17, "C18": c18, "C16": c16, "C15": c15, "C14": c14, "C11": c11, "C12": c12, "C10": c10, "C13": c13, "C06": c06, "C08": c08, "C09": c09, "C01": c01, "C02": c02, "C03": c03, "C04": c04, "C05": c05}
+PROPS = {"C07": c07, "C20": c20, "C19": c19, "C17": c17, "C18": c18, "C16": c16, "C15": c15, "C14": c14, "C11": c11, "C12": c12, "C10": c10, "C13": c13, "C06": c06, "C08": c08, "C09": c09, "C01": c01, "C02": c02, "C03": c03, "C04": c04, "C05": c05}
 
 
 def main():
